@@ -2699,10 +2699,7 @@ class FuncMul(ValueFunc):
             return ValueString(a.value * b.value)
 
         if a.isList() and b.isInt():
-            result = ValueList()
-            for i in range(b.value):
-                result.addItems(a.value)
-            return result
+            return ValueList().addItems(a.value * b.value)
 
         if a.isInt() and b.isInt():
             return ValueInt(a.value * b.value)
